@@ -451,6 +451,19 @@ func TestC05(t *testing.T) {
 	rec := ev.New(t, "C05")
 	rec.Rule("same generated churn + client histories as C03 (concurrent joins/leaves with concurrent single-writer clients, mixed backends). After the quiet period every remaining node's OWN store is listed (RangeKeys(0,0) on the provider the harness handed to the node) and every key found must hash into (predecessor, self] of the true ring; consequently no key is on two nodes. Non-trivial: at least two nodes hold data and at least one key transfer moved at least one key. Distinct = distinct plans.")
 	rec.Assume("true ring = members by observed outcome; rings that do not converge are C02's business (inconclusive)")
+	// scenario tier: two joiners into one gap, the first request stalls at the predecessor probe
+	if p := twoJoinersOneStallsAtPredecessorProbe(); p != "" {
+		if len(p) > 13 && p[:13] == "precondition:" {
+			rec.Inconclusive("scenario-precondition")
+			t.Logf("two-joiners scenario: %s", p)
+		} else {
+			rec.Fail(t, "key-held-outside-ownership-range", map[string]any{"schedule": "ring {1<<44, 9<<44}, 80 keys; 3<<44 asks 9<<44 to join and 9<<44's Ping of its predecessor is held on the wire; 6<<44 asks 9<<44 to join; the Ping is released after 150 ms", "problem": p}, "%s", p)
+		}
+	} else {
+		rec.Case(true, "scenario:two-joiners-one-stalls-at-predecessor-probe", func() any {
+			return map[string]any{"scenario": "two joiners into the same gap; the request of the lower one stalls at the contacted node's liveness probe of its predecessor"}
+		}, "scenario:two-joiners-one-stalls-at-predecessor-probe")
+	}
 	// scenario tier: a node restarts with its old identity and its old store after the ring
 	// has changed, once per backend
 	for b, name := range []string{"memory", "aof", "sqlite"} {
